@@ -115,6 +115,7 @@ package jsonata
 //@   requires (isNumV(lhs) && isNumV(rhs)) || (isStrV(lhs) && isStrV(rhs))
 //@   ensures [C03:numeric-order] (isF64V(lhs) && isF64V(rhs)) ==> result == (fval(res(lhs)) < fval(res(rhs)))
 //@   ensures [C03:string-order] (isStrV(lhs) && isStrV(rhs)) ==> result == strlt(sval(res(lhs)), sval(res(rhs)))
+//@   ensures [defines] result == ufb_vallt(lhs, rhs)
 //@   assigns nothing
 
 //@ func lte
@@ -216,6 +217,82 @@ package jsonata
 //@   ensures [C03:no-else] (ret("eval#0", 1) == nil && !ufb_truthy(ret("eval#0", 0)) && node.Else == nil) ==> (!valid(r0) && r1 == nil)
 //@   atcall[C03:lazy-then] eval#1 requires ufb_truthy(ret("eval#0", 0)) && callee_node == node.Then
 //@   atcall[C03:lazy-else] eval#2 requires !ufb_truthy(ret("eval#0", 0)) && callee_node == node.Else
+
+// --- C13: order-by ---------------------------------------------------------------------------------------
+// Statement: items are ordered by their key tuple - each key ascending by default or with <, descending with >,
+// items whose key is absent follow all items that have it, items with equal key tuples keep their input order
+// (sort.SliceStable, trusted, given a less function that says "not less" for tied tuples).
+//
+// The comparison closure of makeLessFunc decides less(i, j) at the first sort term on which the two key tuples
+// differ: tie(t) = both keys absent, or both present and equal by value.
+// buildSortInfo evaluates every sort key of every item: keys are numbers or strings (anything else is
+// ErrNonSortable), one sort term never mixes numbers and strings (ErrSortMismatch), absent keys stay 'no value'.
+// What it returns is exactly the precondition of the comparison closure below.
+// keyClassOK(v, nt): a present key of a sort term is a number when the term is a number term (nt), a string otherwise;
+// ufb_numterm(info, t) names the class of term t of one buildSortInfo result (ghost, defined at its exit).
+//@ pred keyClassOK(v reflect.Value, nt bool) = ifaceable(v) && (valid(v) ==> ((isNumV(v) && nt) || (isStrV(v) && !isNumV(v) && !nt)))
+//@ pred keyOK(v reflect.Value, nt bool, st bool) = ifaceable(v) && (valid(v) ==> ((isNumV(v) && nt) || (isStrV(v) && st)))
+//@ func buildSortInfo
+//@   props C13 C09
+//@   opaque-arith
+//@   requires arrKind(kind(items)) && canif(items)
+//@   ensures [C13:keys-complete] r1 == nil ==> (len(r0) == rvlen(items) && sortKeysOK(r0, len(terms)) && (forall a in [0, len(r0)): r0[a].index == a))
+//@   ensures [ghost] forall t in [0, len(terms)): ufb_numterm(r0, t) == isNumberTerm[t]
+//@   ensures [C13:keys-sortable-not-mixed] r1 == nil ==> (forall a in [0, len(r0)): forall t in [0, len(terms)): keyClassOK(r0[a].values[t], ufb_numterm(r0, t)))
+//@   ensures [C13:error-kinds] r1 != nil ==> (len(r0) == 0 && (r1 == ret("eval#0", 1) || evalErrIs(r1, ErrSortMismatch) || evalErrIs(r1, ErrNonSortable)))
+//@   assigns heap
+//@   loop 0 invariant 0 <= i && i <= N && N == rvlen(items) && len(info) == N && len(isNumberTerm) == len(terms) && len(isStringTerm) == len(terms)
+//@   loop 0 invariant local(info) && local(isNumberTerm) && local(isStringTerm)
+//@   loop 0 invariant forall a in [0, i): (info[a] != nil && alloc(info[a]) && local(info[a]) && info[a].index == a && len(info[a].values) == len(terms) && alloc(info[a].values) && local(info[a].values))
+//@   loop 0 invariant forall a in [0, i): forall t in [0, len(terms)): keyOK(info[a].values[t], isNumberTerm[t], isStringTerm[t])
+//@   loop 0 invariant forall t in [0, len(terms)): !(isNumberTerm[t] && isStringTerm[t])
+//@   loop 1 invariant 0 <= i && i < N && N == rvlen(items) && len(info) == N && len(isNumberTerm) == len(terms) && len(isStringTerm) == len(terms) && len(values) == len(terms)
+//@   loop 1 invariant local(info) && local(isNumberTerm) && local(isStringTerm) && local(values)
+//@   loop 1 invariant forall a in [0, i): (info[a] != nil && alloc(info[a]) && local(info[a]) && info[a].index == a && len(info[a].values) == len(terms) && alloc(info[a].values) && local(info[a].values))
+//@   loop 1 invariant forall a in [0, i): forall t in [0, len(terms)): keyOK(info[a].values[t], isNumberTerm[t], isStringTerm[t])
+//@   loop 1 invariant forall t in [0, len(terms)): !(isNumberTerm[t] && isStringTerm[t])
+//@   loop 1 invariant forall t in [0, len(terms)): keyOK(values[t], isNumberTerm[t], isStringTerm[t])
+
+// normalizeArray: a one-element array stands for its element; everything else is itself (unwrapped)
+//@ func normalizeArray
+//@   props C01 C02 C09 C13
+//@   ensures (arrKind(kind(res(v))) && rvlen(res(v)) == 1) ==> result == at(res(v), 0)
+//@   ensures !(arrKind(kind(res(v))) && rvlen(res(v)) == 1) ==> result == res(v)
+//@   ensures (valid(v) && canif(v) && valid(result)) ==> canif(result)
+//@   assigns nothing
+
+// evalSort: keys are computed for every item (buildSortInfo), the records are ordered by sort.SliceStable with the
+// comparison closure - whose preconditions are obligations here, for arbitrary in-range index pairs on an
+// arbitrary permutation of the records - and the result holds, per position, the item the record at that position
+// came from (its index is in range: the result is drawn from the input items only).
+//@ func evalSort
+//@   props C13 C09
+//@   opaque-arith
+//@   requires node != nil
+//@   preserves node
+//@   ensures [C13:error-propagates] ret("eval#0", 1) != nil ==> (r1 == ret("eval#0", 1) && !valid(r0))
+//@   ensures [C13:missing] (ret("eval#0", 1) == nil && !valid(ret("eval#0", 0))) ==> (r1 == nil && !valid(r0))
+//@   ensures [C13:key-error] (ret("eval#0", 1) == nil && valid(ret("eval#0", 0)) && ret("buildSortInfo#0", 1) != nil) ==> (r1 == ret("buildSortInfo#0", 1) && !valid(r0))
+//@   ensures [C13:no-error-otherwise] (ret("eval#0", 1) == nil && valid(ret("eval#0", 0)) && ret("buildSortInfo#0", 1) == nil) ==> r1 == nil
+//@   loop 0 invariant -1 <= $i0 && len(info) == rvlen(items) && arrKind(kind(items)) && kind(results) == 23 && rvlen(results) == len(info) && canif(results) && canif(items)
+//@   loop 0 invariant forall a in [0, len(info)): (info[a] != nil && 0 <= info[a].index && info[a].index < len(info))
+
+//@ pred sortKeysOK(info []*sortinfo, n int) = forall a in [0, len(info)): info[a] != nil && len(info[a].values) == n
+//@ pred keyTie(a reflect.Value, b reflect.Value) = (!valid(a) && !valid(b)) || (valid(a) && valid(b) && ufb_valeq(a, b))
+//@ func makeLessFunc$1
+//@   props C13 C09
+//@   opaque-arith
+//@   split-returns
+//@   requires 0 <= i && i < len(info) && 0 <= j && j < len(info) && sortKeysOK(info, len(terms))
+//@   requires forall a in [0, len(info)): forall t in [0, len(terms)): keyClassOK(info[a].values[t], ufb_numterm(info, t))
+//@   requires [lemma] forall t in [0, len(terms)): (keyClassOK(info[i].values[t], ufb_numterm(info, t)) && keyClassOK(info[j].values[t], ufb_numterm(info, t)))
+//@   ensures [C13:all-tied] (forall k in [0, len(terms)): keyTie(info[i].values[k], info[j].values[k])) ==> !result
+//@   ensures [C13:absent-last] forall t in [0, len(terms)): ((forall k in [0, t): keyTie(info[i].values[k], info[j].values[k])) && !keyTie(info[i].values[t], info[j].values[t]) && !valid(info[i].values[t])) ==> !result
+//@   ensures [C13:present-first] forall t in [0, len(terms)): ((forall k in [0, t): keyTie(info[i].values[k], info[j].values[k])) && !keyTie(info[i].values[t], info[j].values[t]) && valid(info[i].values[t]) && !valid(info[j].values[t])) ==> result
+//@   ensures [C13:ascending] forall t in [0, len(terms)): ((forall k in [0, t): keyTie(info[i].values[k], info[j].values[k])) && !keyTie(info[i].values[t], info[j].values[t]) && valid(info[i].values[t]) && valid(info[j].values[t]) && terms[t].Dir != jparse.SortDescending) ==> result == ufb_vallt(info[i].values[t], info[j].values[t])
+//@   ensures [C13:descending] forall t in [0, len(terms)): ((forall k in [0, t): keyTie(info[i].values[k], info[j].values[k])) && !keyTie(info[i].values[t], info[j].values[t]) && valid(info[i].values[t]) && valid(info[j].values[t]) && terms[t].Dir == jparse.SortDescending) ==> result == ufb_vallt(info[j].values[t], info[i].values[t])
+//@   assigns nothing
+//@   loop 0 invariant forall k in [0, $i0 + 1): keyTie(info[i].values[k], info[j].values[k])
 
 //@ pred orderingOp(op jparse.ComparisonOperator) = op == jparse.ComparisonLess || op == jparse.ComparisonLessEqual || op == jparse.ComparisonGreater || op == jparse.ComparisonGreaterEqual
 
